@@ -293,6 +293,19 @@ class Check:
         except subprocess.TimeoutExpired:
             raise Inconclusive("driver timed out after %ss: %s" % (timeout, " ".join(args)[:200]))
         if p.returncode not in ok_codes:
+            # A Go panic raised INSIDE THE CODE UNDER TEST (the panicking goroutine's stack has a frame in the tree under
+            # test) while a driver feeds it valid input is a failure of that code, not of the harness: the command is run
+            # once more, and if it panics there again this is reported as a violation (exit 1); anything else is exit 2.
+            head = code_panic(p.stderr)
+            if head:
+                try:
+                    p2 = subprocess.run(args, cwd=cwd or self.work, input=stdin, stdout=subprocess.PIPE,
+                                        stderr=subprocess.PIPE, text=True, timeout=timeout, env=env, errors="replace")
+                except subprocess.TimeoutExpired:
+                    p2 = None
+                head2 = code_panic(p2.stderr) if p2 is not None and p2.returncode not in ok_codes else None
+                if head2:
+                    raise CodePanic(head2, [os.path.basename(a) for a in args])
             raise Inconclusive("driver failed rc=%s: %s\n%s\n%s" % (p.returncode, " ".join(args)[:200],
                                                                     p.stdout[-2000:], p.stderr[-4000:]))
         return p
@@ -462,6 +475,35 @@ def read_ndjson(path):
     return out
 
 
+class CodePanic(Inconclusive):
+    """the code under test panicked (twice) while a driver ran valid input"""
+    def __init__(self, head, cmd):
+        Inconclusive.__init__(self, head)
+        self.head, self.cmd = head, cmd
+
+
+def code_panic(stderr):
+    """'panic: ... at <frames>' if stderr is a Go panic whose panicking goroutine has a frame in the tree under test"""
+    if not stderr or "panic:" not in stderr:
+        return None
+    lines = stderr.splitlines()
+    try:
+        k = next(i for i, l in enumerate(lines) if l.startswith("panic:"))
+        g = next(i for i in range(k, len(lines)) if lines[i].startswith("goroutine ") and lines[i].rstrip().endswith(":"))
+    except StopIteration:
+        return None
+    block = []
+    for l in lines[g + 1:]:
+        if not l.strip():
+            break
+        block.append(l)
+    root = REPO.rstrip("/") + "/"
+    frames = [l.strip().split(" +")[0].replace(root, "") for l in block if l.startswith("\t") and root in l]
+    if not frames:
+        return None
+    return "%s at %s" % (lines[k][:300], ", ".join(frames[:3]))
+
+
 def main(pid, fn):
     """Entry used by checks/<pid>.py : fn(check) performs the work and calls check.violation()."""
     import argparse
@@ -470,11 +512,22 @@ def main(pid, fn):
     ap.add_argument("--replay", default=None)
     ap.add_argument("--selftest", action="store_true")
     a = ap.parse_args(sys.argv[2:] if len(sys.argv) > 1 and sys.argv[1] == pid else sys.argv[1:])
+    if a.replay:
+        try:
+            if json.load(open(a.replay))["replay"].get("kind") == "code-panic":
+                a.replay = None         # the panic was hit by the tier's own input: run the tier again
+        except Exception:
+            pass
     c = Check(pid, a.tier, replay=a.replay)
     c.selftest = a.selftest
     try:
         fn(c)
         rc = c.finish(**getattr(c, "finish_args", {}))
+    except CodePanic as e:
+        c.violation("the code under test panicked while the driver fed it valid input (reproduced by running the same "
+                    "command again): %s" % e.head, replay_obj=dict(kind="code-panic", panic=e.head, cmd=e.cmd))
+        fa = getattr(c, "finish_args", None) or dict(rule="aborted by a panic of the code under test", distinct_nontrivial=0)
+        rc = c.finish(**fa)
     except Inconclusive as e:
         print("INCONCLUSIVE property=%s %s" % (pid, e), flush=True)
         rc = 2
